@@ -162,7 +162,7 @@ def check_case(case, cwd):
             _bddm.REORDER_STARTS = old_starts
     ptabs = [Den(T._bdd, tnm)(f.node) for f in pre]
     before = (dict(T._bdd._succ), dict(T._bdd._ref), dict(T._bdd.vars))
-    fname = os.path.join(cwd, 'rt')
+    fname = os.path.join(cwd, 'Rt_File')
     # does the loader have to refuse?  (levels=True / load_order with a
     # conflicting pre-declared order)
     conflict = False
@@ -279,7 +279,7 @@ def check_special(case, cwd):
         b.incref(u)
     if case.get('junk'):
         b.collect_garbage()
-    fname = os.path.join(cwd, 'sp.p')
+    fname = os.path.join(cwd, 'Sp_File.p')
     try:
         if case['mode'] == 'roots_none':
             b.dump(fname)
